@@ -45,7 +45,7 @@ func (s *Service) AttestationData(ctx context.Context,
 	// We create a cancelable context with a timeout.  When a provider responds we cancel the context to cancel the other requests.
 	ctx, cancel := context.WithTimeout(ctx, s.timeout)
 
-	respCh := make(chan *phase0.AttestationData, 1)
+	respCh := make(chan *phase0.AttestationData, len(s.attestationDataProviders))
 	for name, provider := range s.attestationDataProviders {
 		go func(ctx context.Context, name string, provider eth2client.AttestationDataProvider, ch chan *phase0.AttestationData) {
 			log := log.With().Str("provider", name).Uint64("slot", uint64(opts.Slot)).Logger()
